@@ -376,6 +376,28 @@ impl C04 {
         Some(s)
     }
 
+    /// A valid generated program laid out with whitespace, newlines and comments between any
+    /// two tokens: the shapes the formatter's comment handling has to survive.
+    pub fn gen_commented(&self, t: &mut Tape) -> String {
+        use crate::props::c05::{decorate, layout, Layout};
+        let mut cfg = crate::proggen::GenCfg::quick();
+        cfg.max_depth = 4;
+        cfg.max_stmts = 5;
+        cfg.wrong_permille = 30;
+        cfg.literal_variety = true;
+        let prog = {
+            let mut g = crate::proggen::Gen::new(t, cfg);
+            g.program()
+        };
+        let src = crate::prog::Renderer::program(&prog);
+        let toks: Vec<String> = match reflex::lex(&src) {
+            Ok(ts) => ts.into_iter().filter(|t| t.kind != Kind::Comment).map(|t| t.src).collect(),
+            Err(_) => return src,
+        };
+        let toks = decorate(toks, t);
+        layout(&toks, t, Layout::Wild)
+    }
+
     pub fn gen_soup(&self, t: &mut Tape) -> String {
         let n = 1 + t.choice(60);
         let mut s = String::new();
@@ -561,7 +583,7 @@ impl Property for C04 {
         "C04"
     }
     fn rule(&self) -> String {
-        "enumerated: every .ucg file shipped in the repository and every file of fuzz/corpus, unmodified; generated: token soups over the full vocabulary with arbitrary Unicode characters, statement-shaped soups, 1-3 token mutations (delete/duplicate/swap/replace) of windows of those files, edge-arithmetic programs (zero divisors, i64 extremes, range limits, format placeholder/argument mismatches, casts and functional ops on wrong shapes), bracket nesting 1..64; each input goes through tokenize, parse (with/without comments), type check, translate, format, evaluate (strict / non-strict), convert (8 converters) under catch_unwind in a supervised worker with a deterministic work bound; 1 in 40 also through the real binary (build, fmt, test). Non-trivial: the input parses and has >= 3 tokens; distinct by input text.".into()
+        "enumerated: every .ucg file shipped in the repository and every file of fuzz/corpus, unmodified; generated: token soups over the full vocabulary with arbitrary Unicode characters, statement-shaped soups, 1-3 token mutations (delete/duplicate/swap/replace) of windows of those files, edge-arithmetic programs (zero divisors, i64 extremes, range limits, format placeholder/argument mismatches, casts and functional ops on wrong shapes), bracket nesting 1..64, valid generated programs with comments, newlines and CRLF between any two tokens; each input goes through tokenize, parse (with/without comments), type check, translate, format, evaluate (strict / non-strict), convert (8 converters) under catch_unwind in a supervised worker with a deterministic work bound; 1 in 40 also through the real binary (build, fmt, test). Non-trivial: the input parses and has >= 3 tokens; distinct by input text.".into()
     }
     fn assumptions(&self) -> Vec<String> {
         vec![
@@ -615,7 +637,8 @@ impl Property for C04 {
     fn run_tape(&mut self, words: &[u32]) -> Outcome {
         let mut t = Tape::new(words);
         let max_nest = 64;
-        let (label, text) = match t.weighted(&[3, 3, 5, 5, 2]) {
+        let (label, text) = match t.weighted(&[3, 3, 5, 5, 2, 3]) {
+            5 => ("commented-program", self.gen_commented(&mut t)),
             0 => ("token-soup", self.gen_soup(&mut t)),
             1 => ("statement-soup", self.gen_statementish(&mut t)),
             2 => match self.gen_mutation(&mut t) {
